@@ -620,7 +620,7 @@ def run_property(pid, tier, repo=REPO, keep=False, quiet_evidence=False, record_
                 inject(scratch, used_units)
                 full = {h["unit"].full_harness(h): h for h in harnesses}
                 jout = os.path.join(logdir, "kani.json")
-                jobs = int(os.environ.get("VERIF_JOBS", "5"))
+                jobs = int(os.environ.get("VERIF_JOBS", str(cfg.get("jobs", 5))))  # props may lower it for memory-hungry harness sets
                 ht = int(os.environ.get("VERIF_HARNESS_TIMEOUT", "900" if tier == "quick" else "5400"))
                 cmd = kani_cmd(target, list(full), jobs, jout, ht, extra=cfg.get("kani_args", ()))
                 checker_cmds.append(" ".join(cmd[:12]) + " --harness <%d harnesses> -j %d" % (len(full), jobs))
